@@ -62,4 +62,33 @@ def streamAll (D : List Dialect) (T : Table) (opts : Opts) : List (Str Ã— Str) â
     let (es, ids') := streamEnum D T opts ids uri data
     es :: streamAll D T opts rest ids'
 
+/-- `GherkinEvents.enum` when the stream's parser has been switched to `stop_at_first_error`
+    (`events.parser.stop_at_first_error = True`; the attribute is public): the same function with the
+    parser run in mode `stop`.  `streamEnum` is the instance `stop = false` (`streamEnumMode_false`). -/
+def streamEnumMode (D : List Dialect) (T : Table) (stop : Bool) (opts : Opts) (ids : Nat) (uri data : Str) :
+    List Envelope Ã— Nat :=
+  match MState.init D (lit "en") with
+  | none => ([.crash "no default dialect"], ids)
+  | some Î¼ =>
+    let (out, ctx) := parseWith D T stop Î¼ ids data
+    match out with
+    | .ok d =>
+      let pre := (if opts.printSource then [Envelope.source uri data] else []) ++
+                 (if opts.printAst then [Envelope.gherkinDocument uri d] else [])
+      if opts.printPickles then
+        match compile uri d ctx.ids with
+        | some (ps, n') => (pre ++ ps.map Envelope.pickle, n')
+        | none => (pre ++ [.crash "IndexError in compile"], ctx.ids)
+      else (pre, ctx.ids)
+    | .rejected es _ => (es.map (Envelope.parseError uri), ctx.ids)
+    | .crash w => ([.crash w], ctx.ids)
+    | .fuel => ([.crash "fuel"], ctx.ids)
+
+/-- a sequence of sources through one stream whose parser runs in mode `stop` -/
+def streamAllMode (D : List Dialect) (T : Table) (stop : Bool) (opts : Opts) : List (Str Ã— Str) â†’ Nat â†’ List (List Envelope)
+  | [], _ => []
+  | (uri, data) :: rest, ids =>
+    let (es, ids') := streamEnumMode D T stop opts ids uri data
+    es :: streamAllMode D T stop opts rest ids'
+
 end GV
